@@ -670,8 +670,14 @@ func genScenario(r *hx.Rng, i int, allowOpaque bool) *Scenario {
 		sc.Accounts = append(sc.Accounts, Acct{a, b.String(), n})
 	}
 	ntx := r.Pick(0, 1, 1, 2, 2, 3, 4, 6, 8, 12)
-	if r.Chance(1, 40) {
-		ntx = 13 + r.Intn(4) // beyond the insertion-sort range: the model answers `unmodelled`
+	if r.Chance(1, 12) {
+		ntx = 13 + r.Intn(28) // beyond the insertion-sort range: modelled when Less is total on the block
+	}
+	// large blocks: mostly "clean" ones on which Less is a strict total order (p023: source number,
+	// nonce, hash; canonical spellings; requestIds 0 or unique), so that the model can answer them
+	clean := ntx > 12 && r.Chance(3, 4)
+	if clean {
+		sc.Flags = sc.Flags[:5] + "1"
 	}
 	next := map[string]uint64{}
 	for k := 0; k < ntx; k++ {
@@ -718,6 +724,15 @@ func genScenario(r *hx.Rng, i int, allowOpaque bool) *Scenario {
 			x.Req = uint64(1 + r.Intn(4))
 		case 1:
 			x.Req = uint64(100 + k)
+		}
+		if clean {
+			x.Source = "0x" + a
+			if x.Type == 200 {
+				x.Type = 100
+			}
+			if x.Req != 0 {
+				x.Req = uint64(100 + k)
+			}
 		}
 		// extra data
 		switch r.Intn(12) {
@@ -1132,20 +1147,28 @@ func emitSortOp(out *hx.Out, r *hx.Rng) {
 	sc := &Scenario{Height: 50, Flags: genFlags(r)}
 	applyFlags(sc, 49, false)
 	n := r.Pick(0, 1, 2, 3, 5, 8, 12, 12)
-	if r.Chance(1, 20) {
-		n = 13 + r.Intn(8)
+	if r.Chance(1, 4) {
+		n = 13 + r.Intn(50)
+	}
+	clean := n > 12 && r.Chance(3, 4)
+	if clean {
+		sc.Flags = sc.Flags[:5] + "1"
+		applyFlags(sc, 49, false)
 	}
 	var txs []*types.Transaction
 	op := fmt.Sprintf("sort %s %d", sc.Flags, n)
 	for i := 0; i < n; i++ {
 		a := poolAddrs[r.Intn(3)]
 		src := "0x" + a
-		if r.Chance(1, 4) {
+		if r.Chance(1, 4) && !clean {
 			src = spell(r, a)
 		}
 		tx := &types.Transaction{Source: src, Nonce: uint64(r.Intn(3)), Hash: common.BytesToHash(unhex(randHash(r)))}
 		if r.Chance(1, 4) {
 			tx.RequestId = uint64(1 + r.Intn(3))
+			if clean {
+				tx.RequestId = uint64(100 + i)
+			}
 		}
 		txs = append(txs, tx)
 		sn := new(big.Int).SetBytes(common.FromHex(src))
